@@ -131,6 +131,10 @@ def generate(rng, tier):
     n = 8000 if tier == "quick" else 200000
     for _ in range(n):
         g["generator-random"].append("SPD %d %s %s" % (rng.below(7), transform(rng), hx(gen_string(rng))))
+        if rng.below(4) == 0:
+            # SetTransform called more than once (the last call is in force; no arguments = identity)
+            hist = "/".join([transform(rng) for _ in range(rng.range(1, 2))] + [rng.choice(["-", "-", transform(rng)])])
+            g.setdefault("generator-transform-history", []).append("SPD %d %s %s" % (rng.below(7), hist, hx(gen_string(rng))))
     for _ in range(n):
         size = C.fh(float(rng.choice([24, 48, 20, 18])))
         ox, oy = C.fh(rng.choice([0.0, 1.0, -2.0, 0.5])), C.fh(rng.choice([0.0, 3.0, -1.0]))
